@@ -228,7 +228,7 @@ func (g *Gen) crashTable() []HostileInput {
 }
 
 // NoCrashInputs builds the deterministic input list for a seed.
-func NoCrashInputs(seed uint64, fuzz int) (*World, []HostileInput) {
+func NoCrashInputs(seed uint64, fuzz int) (*OlvmWorld, []HostileInput) {
 	p := SmallParams(seed)
 	p.NVals, p.TopValidators = 4, 4
 	// fork family: OLVM is enabled from block 1, genesis validators stake enough to survive it
@@ -238,7 +238,13 @@ func NoCrashInputs(seed uint64, fuzz int) (*World, []HostileInput) {
 	// Ethereum-keyed accounts are funded, so that correctly signed OLVM transactions execute
 	p.Witnesses = 2
 	p.ETH = EthOption(100000, 100000)
-	ow := NewOlvmWorld(p, 2)
+	// every fourth seed: a finite block gas limit in the consensus parameters; the child then fills
+	// each block the way Tendermint's mempool does (gas wanted, as answered by CheckTx, summed up
+	// to the limit), so that the block hooks meet a block gas meter that is used up
+	if seed%4 == 3 {
+		p.MaxGas = int64(120000 + 40000*(seed%5))
+	}
+	ow := NewOlvmWorld(p, 3)
 	w := ow.World
 	r := rng.New(seed*7 + 1)
 	g := NewGen(w, r)
@@ -256,13 +262,15 @@ func NoCrashInputs(seed uint64, fuzz int) (*World, []HostileInput) {
 			in = append(in, h)
 		}
 	}
-	return w, in
+	return ow, in
 }
 
 // NoCrashChild executes inputs[from:] in this process: each through CheckTx and in a block,
 // followed by a probe; prints one DONE line per input. Never returns on a crash (that is the point).
 func NoCrashChild(seed uint64, fuzz, from int, out *os.File) {
-	w, inputs := NoCrashInputs(seed, fuzz)
+	ow, inputs := NoCrashInputs(seed, fuzz)
+	w := ow.World
+	loopNonce := uint64(0)
 	A, err := NewReplica(w, Identity{Name: "A", Val: w.Vals[0]})
 	if err != nil {
 		fmt.Fprintln(out, "SETUP-ERROR", err)
@@ -289,7 +297,34 @@ func NoCrashChild(seed uint64, fuzz, from int, out *os.File) {
 		fmt.Fprintf(out, "START %d %s\n", i, strings.ReplaceAll(short(in.Label), "\n", " "))
 		cr := A.CheckTx(in.Tx)
 		g.Height = sim.Height + 1
-		b := sim.NextBlock([][]byte{in.Tx}, BlockOpts{})
+		blockTxs := [][]byte{in.Tx}
+		if w.P.MaxGas > 0 {
+			// fill the block as the mempool reaps it: admitted transactions, gas wanted within the limit
+			total := cr.GasWanted
+			// OLVM transactions answer CheckTx with gas wanted 0, so the mempool takes any number
+			// of them: three that burn their whole gas limit (a creation that loops)
+			for k := 0; k < 3; k++ {
+				t := ow.OlvmTx(ow.Eth[1], nil, loopNonce, big.NewInt(0), []byte{0x5b, 0x60, 0x00, 0x56}, 100000, big.NewInt(10000000000), OlvmTweak{})
+				if c := A.CheckTx(t); c.Code == 0 && total+c.GasWanted <= w.P.MaxGas {
+					total += c.GasWanted
+					blockTxs = append(blockTxs, t)
+					loopNonce++
+				}
+			}
+			for k := 0; k < 40; k++ {
+				t := g.Next(AllWeights())
+				c := A.CheckTx(t.Bytes)
+				if c.Code != 0 {
+					continue
+				}
+				if total+c.GasWanted > w.P.MaxGas {
+					break
+				}
+				total += c.GasWanted
+				blockTxs = append(blockTxs, t.Bytes)
+			}
+		}
+		b := sim.NextBlock(blockTxs, BlockOpts{})
 		res := A.ExecBlock(b)
 		if A.Crashed {
 			fmt.Fprintf(out, "CLOSED %d application closed itself after a panic\n", i)
@@ -310,6 +345,9 @@ func NoCrashChild(seed uint64, fuzz, from int, out *os.File) {
 		}
 		sim.Absorb(pb, pr)
 		ok := pc.Code == 0 && len(pr.Txs) == 1 && pr.Txs[0].Code == 0
+		if os.Getenv("NOCRASH_DEBUG") != "" {
+			fmt.Fprintf(out, "GAS %d txs=%d consumed=%d limit=%d\n", i, len(blockTxs), A.App.VerifConsumedGas(), w.P.MaxGas)
+		}
 		fmt.Fprintf(out, "DONE %d check=%d deliver=%d probe=%v\n", i, cr.Code, res.Txs[0].Code, ok)
 		TruncateAppLog()
 	}
